@@ -38,6 +38,10 @@ func main() {
 	hmain.Main()
 }
 
+// restoreShared rebuilds the shared arguments after the library damaged them
+// (so that later schedules start from the intended values).
+func restoreShared() { setupValues() }
+
 func restoreCold() {
 	field.VerifRestore()
 	edwards25519.VerifRestore()
@@ -72,9 +76,12 @@ var (
 	ptA, ptA2      *edwards25519.Point
 	ptAm           ref.Pt
 	shared         struct {
-		s *edwards25519.Scalar
-		p *edwards25519.Point
+		s  *edwards25519.Scalar
+		p  *edwards25519.Point
+		ss []*edwards25519.Scalar // shared slices: a zero scalar that is not the last term
+		ps []*edwards25519.Point
 	}
+	sharedFingerprint string
 )
 
 func setupValues() {
@@ -95,6 +102,31 @@ func setupValues() {
 	ptA2 = alpha.MakePoint(ref.Add(ref.Torsion()[3], ref.Mul(big.NewInt(11), ref.Base())), 3)
 	shared.s = mk(big.NewInt(77))
 	shared.p = alpha.MakePoint(ref.Mul(big.NewInt(9), ref.Base()), 3)
+	shared.ss = []*edwards25519.Scalar{mk(big.NewInt(5)), edwards25519.NewScalar(), mk(big.NewInt(6)), mk(alpha.GenericScalar)}
+	shared.ps = []*edwards25519.Point{alpha.MakePoint(ref.Mul(big.NewInt(2), ref.Base()), 6), alpha.MakePoint(ref.Torsion()[1], 3), alpha.MakePoint(ref.Mul(big.NewInt(3), ref.Base()), 0), shared.p}
+	sharedFingerprint = fingerprintShared()
+}
+
+// fingerprintShared: the complete memory image of every value the scenarios
+// share between threads (they only ever pass them as read-only arguments).
+func fingerprintShared() string {
+	var b strings.Builder
+	b.WriteString(string(alpha.PointRaw(shared.p)))
+	fmt.Fprint(&b, alpha.ScalarRaw(shared.s))
+	for i := range shared.ss {
+		fmt.Fprintf(&b, "|%p", shared.ss[i])
+		fmt.Fprint(&b, alpha.ScalarRaw(shared.ss[i]))
+		fmt.Fprintf(&b, "|%p", shared.ps[i])
+		b.WriteString(string(alpha.PointRaw(shared.ps[i])))
+	}
+	fmt.Fprint(&b, len(shared.ss), cap(shared.ss), len(shared.ps), cap(shared.ps))
+	for _, p := range []*edwards25519.Point{ptA, ptA2} {
+		b.WriteString(string(alpha.PointRaw(p)))
+	}
+	for _, k := range []*edwards25519.Scalar{k1, k2, ka, kb} {
+		fmt.Fprint(&b, alpha.ScalarRaw(k))
+	}
+	return b.String()
 }
 
 func sbm(k *edwards25519.Scalar) call {
@@ -249,6 +281,22 @@ func scenarios() []scenario {
 				return new(edwards25519.Point).MultiScalarMult([]*edwards25519.Scalar{shared.s, shared.s}, []*edwards25519.Point{shared.p, shared.p}).Bytes()
 			}},
 			{"Bytes(shared)", func() []byte { return append(shared.p.Bytes(), shared.s.Bytes()...) }},
+			{"VarTimeMultiScalarMult(shared slices)", func() []byte {
+				return new(edwards25519.Point).VarTimeMultiScalarMult(shared.ss, shared.ps).Bytes()
+			}},
+			{"MultiScalarMult(shared slices)", func() []byte {
+				return new(edwards25519.Point).MultiScalarMult(shared.ss, shared.ps).Bytes()
+			}},
+			{"ExtendedCoordinates(shared) then caller writes its copies", func() []byte {
+				X, Y, Z, T := shared.p.ExtendedCoordinates()
+				out := append(X.Bytes(), Z.Bytes()...)
+				zi := new(field.Element).Invert(Z)
+				X.Multiply(X, zi) // the caller owns what it was handed
+				Y.Multiply(Y, zi)
+				Z.One()
+				T.Multiply(X, Y)
+				return append(out, X.Bytes()...)
+			}},
 		}
 	}
 	return []scenario{
@@ -285,6 +333,9 @@ func runScheduleOpt(sc *scenario, prefix []int, expect []vsched.PointInfo, logEv
 func runScheduleFull(sc *scenario, prefix []int, expect []vsched.PointInfo, logEvents bool, cold bool, keyed bool) *result {
 	if cold {
 		restoreCold()
+	}
+	if fingerprintShared() != sharedFingerprint {
+		restoreShared() // a previous execution's library calls damaged them (reported there)
 	}
 	r := &result{outs: make([][][]byte, len(sc.threads))}
 	var bodies []func()
@@ -393,6 +444,7 @@ type seqRef struct {
 // (the zero-deviation schedule), outputs additionally compared with the model.
 func sequentialRef(sc *scenario) *seqRef {
 	r := runSchedule(sc, nil, nil, false)
+	seqDamagedShared = fingerprintShared() != sharedFingerprint
 	// Restore self-check: the zero-deviation schedule, run again after
 	// restoring the cold snapshot, must give identical observations. If not,
 	// this tree keeps state the generated snapshot cannot reach (e.g. captured
@@ -451,6 +503,10 @@ func checkExecution(sc *scenario, seq *seqRef, r *result) string {
 	if len(e.Faults) > 0 {
 		return e.Faults[0]
 	}
+	if fp := fingerprintShared(); fp != sharedFingerprint {
+		restoreShared()
+		return "a value the threads only passed as a read-only argument (shared point, scalar, or the scalar/point slices and their elements) was modified by the library"
+	}
 	for ti := range seq.outs {
 		for ci := range seq.outs[ti] {
 			if !bytes.Equal(seq.outs[ti][ci], r.outs[ti][ci]) {
@@ -501,6 +557,10 @@ func checkExecution(sc *scenario, seq *seqRef, r *result) string {
 }
 
 var stateDiffers int64
+
+// seqDamagedShared: the sequential reference execution itself modified a
+// value that was only ever passed as a read-only argument.
+var seqDamagedShared bool
 
 var funcNames []string
 
@@ -944,6 +1004,15 @@ func runC18(ctx *core.Ctx) {
 					want = mo["sbm-k1"]
 				case c.name == "VarTimeDoubleScalarBaseMult" && (sc.name[:2] == "S2" || sc.name[:2] == "S3") && ci == 0:
 					want = mo["vtd-ab"]
+				}
+				if strings.Contains(c.name, "(shared slices)") {
+					w := ref.Identity()
+					for i := range shared.ss {
+						pm, _, _, _, _, _ := alpha.PointModel(shared.ps[i])
+						w = ref.Add(w, ref.Mul(ref.FromLE(shared.ss[i].Bytes()), pm))
+					}
+					e := ref.Encode(w)
+					want = e[:]
 				}
 				if want != nil && !bytes.Equal(seq.outs[ti][ci], want) {
 					ctx.ReportViolation("C18/schedule", 0, schedCase{sc.name, nil}, fmt.Sprintf("%s: sequential result of thread %d call %d differs from the model", sc.name, ti+1, ci))
